@@ -291,8 +291,15 @@ func filterIgnored(
 			// analyzers the user has expressed interest in. That way,
 			// `staticcheck -checks=SA1000` won't complain about an
 			// unmatched ignore for an unrelated check.
-			if allowedAnalyzers[c] {
-				return true
+			//
+			// Names are globs, exactly as in lineIgnore.match.
+			for name, allowed := range allowedAnalyzers {
+				if !allowed || name.String() == "u1000" {
+					continue
+				}
+				if m, _ := filepath.Match(c.String(), name.String()); m {
+					return true
+				}
 			}
 		}
 
